@@ -27,4 +27,5 @@ t = be2.get_versor_from_vertex(11)
 if np.abs(t + np.array([3.0, 1.0]) / np.sqrt(10)).max() > 1e-9:
     bad.append(("D2b", t.tolist()))
 print(bad)
-sys.exit(1 if bad else 0)
+# D1 is a known finding (not repaired); only the repaired D2 part decides the exit status
+sys.exit(1 if [b for b in bad if b[0].startswith("D2")] else 0)
